@@ -21,14 +21,14 @@ ASSUMPTIONS = [
     "idle R tie alphabet (IdleHs.ih_alpha, 160 words): enable x valid x (data, ctrl) in {idle word, all-ones, each single data "
     "bit, each single ctrl bit}; random full-width words: correspondence only",
     "timers: Tk = floor(f * 10 us), Tr = floor(f * 1 ms) computed exactly (integer arithmetic) in props/C44.py and compared "
-    "with what the code derives from ss_clock_frequency (float) through the tie; R tie at f in {300, 400} kHz (quick) + "
-    "{700 kHz, 1 MHz, 1.6 MHz} (thorough), all 16 input combinations per cycle; correspondence at 2.5 MHz (quick) + 12.5 MHz and 125 MHz = LUNA's default (thorough)",
+    "with what the code derives from ss_clock_frequency (float) through the tie; R tie at f = 300 kHz (quick) + "
+    "{400 kHz, 700 kHz, 1 MHz, 1.6 MHz} (thorough), all 16 input combinations per cycle; correspondence at 2.5 MHz (quick) + 12.5 MHz and 125 MHz = LUNA's default (thorough)",
     "timers: the registers are Signal(range(T)) and wrap at 2^w; the exact-cycle theorems are stated for the first 2^w quiet "
     "cycles (the code comments that roll-over is harmless because the strobe's consumer restarts the timer)",
     "the 10 us keepalive interval of the code is far below the 10 ms bound of the property text; time = cycles / f",
 ]
 TIE_IMPORTS = ("From LunaLib Require Import SsWords.\n"
-               "From LunaModel Require IdleHs IdleHs_proofs LinkTimers LinkTimers_proofs.\n")
+               "From LunaModel Require Import IdleHs IdleHs_proofs LinkTimers LinkTimers_proofs.\n")
 
 
 # ---------------------------------------------------------------------------------------------
@@ -66,11 +66,11 @@ def mk_timers(f_hz, big=False):
 
 
 def targets(tier):
-    ts = [mk_idle(4), mk_idle(2)]
-    ts += [mk_timers(300_000), mk_timers(400_000), mk_timers(2_500_000, big=True)]
+    ts = [mk_idle(4)]
+    ts += [mk_timers(300_000), mk_timers(2_500_000, big=True)]
     if tier != "quick":
-        ts += [mk_idle(1), mk_idle(3), mk_idle(7)]
-        ts += [mk_timers(700_000), mk_timers(1_000_000), mk_timers(1_600_000), mk_timers(12_500_000, big=True),
+        ts += [mk_idle(1), mk_idle(2), mk_idle(3), mk_idle(7)]
+        ts += [mk_timers(400_000), mk_timers(700_000), mk_timers(1_000_000), mk_timers(1_600_000), mk_timers(12_500_000, big=True),
                mk_timers(125_000_000, big=True)]
     return ts
 
@@ -215,14 +215,14 @@ LEVEL_TEXT = ("Machine-checked proof about models, tied to the code. Idle handsh
               "timeouts/widths and histories the model equals the specification (C44_timers_model_spec); until a register wraps, "
               "schedule_keepalive / transition_to_recovery are high exactly in the cycle T cycles after the last sent / received "
               "link command or header packet (or U0 entry), never earlier (C44_keepalive_exact, C44_recovery_exact). "
-              "Tie: netlist regenerated from /repo proved equal to the specification -- timers: on ALL input traces at 2 (quick) / 5 "
+              "Tie: netlist regenerated from /repo proved equal to the specification -- timers: on ALL input traces at 1 (quick) / 5 "
               "(thorough) scaled clock frequencies, with Tk, Tr recomputed exactly from f; idle: on all traces over 160 "
-              "representative words for n = 4, 2 (+1, 3, 7 thorough); correspondence (not a proof) on random full-width words and at "
+              "representative words for n = 4 (+1, 2, 3, 7 thorough); correspondence (not a proof) on random full-width words and at "
               "2.5 / 12.5 / 125 MHz.")
-LEVEL_NOTE = ("The unchanged tree VIOLATES the idle-handshake half: IdleHandshakeHandler ignores sink.valid (and counts the all-zero "
+LEVEL_NOTE = ("Until the candidate patch is applied the tree VIOLATES the idle-handshake half: IdleHandshakeHandler ignores sink.valid (and counts the all-zero "
               "reset value of its capture register as a received idle word), so the handshake completes without a single valid "
               "symbol having been received (findings/C44-idle-valid.json, candidate patch findings/C44-idle-valid.diff); the "
-              "check exits 1 on the unchanged tree and 0 with the patch. The timers half holds on the unchanged tree. "
+              "check exits 1 without the patch and 0 with it. The timers half holds on the unchanged tree. "
               "Idle R tie over a finite representative alphabet, not all 2^38 words. Timer theorems about exact cycles hold "
               "until the Signal(range(T)) register wraps (2^w cycles of silence). "
               "Trusted: Coq kernel + vm_compute, Amaranth elaboration, nir2coq.py/Netlist.v (validated each run against pysim).")
